@@ -269,7 +269,12 @@ def lru_assembly(ctx, rr):
             return True
         return False
     slices = [x for x in ast.walk(d.node) if isinstance(x, ast.Subscript) and isinstance(x.slice, ast.Slice)]
-    good = [x for x in slices if stem_list(x.value) and x.slice.lower is None and x.slice.upper is not None and ast.unparse(x.slice.upper) == '-1' and x.slice.step is None]
+    def drops_last(x):
+        if x.slice.lower is not None or x.slice.upper is None or x.slice.step is not None:
+            return False
+        up = ast.unparse(x.slice.upper).replace(' ', '')
+        return up == '-1' or up == 'len(%s)-1' % ast.unparse(x.value).replace(' ', '')
+    good = [x for x in slices if stem_list(x.value) and drops_last(x)]
     other = [x for x in slices if stem_list(x.value) and x not in good]
     raw = [x for x in ast.walk(d.node) if (isinstance(x, ast.Subscript) and isinstance(x.value, ast.Name) and x.value.id == dp and isinstance(x.slice, ast.Slice))
            or (isinstance(x, ast.Call) and isinstance(x.func, ast.Attribute) and x.func.attr in ('rsplit', 'rpartition', 'rstrip', 'split', 'partition', 'rfind', 'rindex')
@@ -279,10 +284,7 @@ def lru_assembly(ctx, rr):
     elif other or raw:
         ok = False
     else:
-        ok = any(isinstance(x, ast.Subscript) and isinstance(x.slice, ast.Slice) and x.slice.lower is None and x.slice.upper is not None and ast.unparse(x.slice.upper) == '-1'
-                 for x in ast.walk(d.node))
-        if ok:
-            raise AnalysisError('R-LRU-ASSEMBLY: helpers.lru_dirname slices something that is not the list of stems given by lru_iter')
+        raise AnalysisError('R-LRU-ASSEMBLY: helpers.lru_dirname does not slice the list of stems given by lru_iter (shape not recognised)')
     rr.ob(ctx.where(d), 'lru_dirname joins the stems lru_iter cuts, without the last one', ok=ok)
     if not ok:
         why = 'lru_dirname no longer drops exactly the last stem'
